@@ -14,6 +14,7 @@ mod ops_poly;
 mod ops_relate;
 mod ops_segseg;
 mod ops_simplify;
+mod ops_tiling;
 mod ops_traversal;
 mod ops_valid;
 
@@ -67,6 +68,8 @@ fn main() {
                 "c18" => ops_c18::record(&mut w, seed, n),
                 "c17" => ops_c17::record(&pool, &mut w, seed, n),
                 "c04" => ops_boolops::record(&pool, &mut w, seed, n),
+                "c10" => ops_tiling::record(&pool, &mut w, seed, n),
+                "c10rerun" => ops_tiling::rerun(&pool, &mut w),
                 "c04rerun" => ops_boolops::rerun(&pool, &mut w),
                 k => { eprintln!("unknown record kind {k}"); std::process::exit(2); }
             }
